@@ -431,6 +431,10 @@ def make_legacy(kind, world):
     raise ValueError(kind)
 
 
+def c18_answer(v):
+    return ((v ^ (v >> 8)) * 7 + 3) & 0xFF
+
+
 def execute_c18(plan):
     """Send every command of the plan through a synchronous driver; returns
     (world, [(spec, status, exc_or_result, packets_written_by_this_send)])."""
@@ -439,7 +443,11 @@ def execute_c18(plan):
     out = []
     restore = None
     if drv == "daliserver":
-        model = DaliServerModel(world, lambda b, v: ("silent",))
+        def ds_outcome(b, v):
+            # every query is answered with a byte that depends on its frame: a reply read for the
+            # wrong request (one left over in a persistent connection) cannot go unnoticed
+            return ("value", c18_answer(v)) if cmds.mk_cmd([b, v, 0]).response is not None else ("silent",)
+        model = DaliServerModel(world, ds_outcome)
         saved = dsmod.socket
         dsmod.socket = fake_socket_module(model)
         restore = lambda: setattr(dsmod, "socket", saved)     # noqa: E731
